@@ -40,12 +40,14 @@ def install(R: Registry):
     R.declare_class("Event", external=True, fields={}, ghost=dict(flag="Bool"))
     R.declare_class("Thread", external=True, fields={})
     R.declare_class("PyLogger", external=True, fields={})
-    R.declare_class("Formatter", external=True, fields={})
+    R.declare_class("Formatter", external=True, fields={}, ghost=dict(out="List[LMessage]"))   # messages handed to this formatter, in order
     R.declare_class("FileObj", external=True, fields={})
     R.declare_class("LMessage", external=True, fields={}, ghost=dict(tid="Int"))
     R.declare_class("DataSet", fields=dict(rbuf="List[LMessage]", wbuf="List[LMessage]", all_sub="Bool", msg_types="List[Int]", next_subdivide="Float",
                                            subdivide_interval="Float", subdivide_flag="Bool", collection_stopped="Bool", formatter="Formatter", fd="FileObj", sub_index="Int"),
-                    ghost=dict(logged="Int"))
+                    ghost=dict(logged="Int",
+                               acc="List[LMessage]",     # every message accepted for this data set (selected while recording and not paused), in arrival order
+                               nl="Int"))                # how many of them have been handed to the formatter (in order: acc[0:nl])
     R.declare_class("DataCollection", fields=dict(_paused="Bool", _recording="Bool", _close="Bool", use_thread="Bool", write_thread="Thread", datasets="List[DataSet]",
                                                   write_to_disk="Event", write_finished="Event", next_write="Float", logger="PyLogger", name="Str",
                                                   start_time="Float", ref_time="Float", _elapsed_time="Float", save_path="Str"))
@@ -63,14 +65,36 @@ def install(R: Registry):
     R.define("clean", "c: DataCollection", "implies(not dirty, forall('i:Int', implies(0 <= i and i < len(c.datasets), len(c.datasets[i].wbuf) == 0)))",
              "nothing staged and unwritten: every write buffer is empty")
 
+    R.define("conserveV", "nl: Int, w: List[LMessage], r: List[LMessage], a: List[LMessage]",
+             "nl >= 0 and len(w) >= 0 and len(r) >= 0 and len(a) == nl + len(w) + len(r) and "
+             "forall('j:Int', implies(0 <= j and j < len(w), w[j] == a[nl + j])) and "
+             "forall('j:Int', implies(0 <= j and j < len(r), r[j] == a[nl + len(w) + j]))",
+             "the accepted sequence is: what was handed to the formatter (a[0:nl]), then the write buffer, then the read buffer - nothing lost, duplicated or reordered", opaque=True)
+    R.define("conserve", "s: DataSet", "conserveV(s.nl, s.wbuf, s.rbuf, s.acc)")
+    R.define("conserve_all", "c: DataCollection", "forall('i:Int', implies(0 <= i and i < len(c.datasets), conserve(c.datasets[i])))")
+    R.define("selects", "s: DataSet, m: LMessage", "m != null and (s.all_sub or exists('k:Int', 0 <= k and k < len(s.msg_types) and s.msg_types[k] == m.tid))",
+             "the data set selects the message's type")
+    R.define("appended", "new: List[LMessage], old_: List[LMessage], m: LMessage",
+             "len(new) == len(old_) + 1 and new[len(old_)] == m and forall('j:Int', implies(0 <= j and j < len(old_), new[j] == old_[j]))")
+    R.define("grown_by", "new: List[LMessage], old_: List[LMessage], b: List[LMessage]",
+             "len(new) == len(old_) + len(b) and forall('j:Int', implies(0 <= j and j < len(old_), new[j] == old_[j])) and forall('j:Int', implies(0 <= j and j < len(b), new[len(old_) + j] == b[j]))")
+
     # ------------------------------------------------------------------ interference of the writer thread (the recorder's rely)
-    R.external("rg_interfere", params={}, modifies=["Event.flag", "glob:pcW", "glob:dirty", "DataSet.wbuf", "DataSet.logged", "DataSet.subdivide_flag", "DataSet.sub_index"],
+    R.external("rg_interfere", params={}, modifies=["Event.flag", "glob:pcW", "glob:dirty", "DataSet.wbuf", "DataSet.logged", "DataSet.subdivide_flag", "DataSet.sub_index", "DataSet.nl", "DataSet.formatter", "Formatter.out"],
                ensures=["Wstar(old(st_a(dc)), old(st_b(dc)), old(pcW), old(dirty), st_a(dc), st_b(dc), pcW, dirty)",
                         "forall('e:Event', implies(e != dc.write_to_disk and e != dc.write_finished, e.flag == old(e.flag)))",
                         # the write pass empties every write buffer (DataSet.write: formatter.write(wbuf); wbuf.clear()); outside it the buffers are not touched
                         "implies(old(dirty) and not dirty, forall('i:Int', implies(0 <= i and i < len(dc.datasets), len(dc.datasets[i].wbuf) == 0)))",
-                        "implies(dirty == old(dirty), forall('s:DataSet', s.wbuf == old(s.wbuf)))",
-                        "implies(not old(dirty), dirty == old(dirty))"],
+                        "implies(dirty == old(dirty), forall('s:DataSet', s.wbuf == old(s.wbuf) and s.nl == old(s.nl)))",
+                        # effect of one write pass on every data set (the verified postcondition of DataSet.write): the staged messages are handed to the formatter
+                        "implies(old(dirty) and not dirty, forall('i:Int', implies(0 <= i and i < len(dc.datasets), dc.datasets[i].nl == old(dc.datasets[i].nl) + old(len(dc.datasets[i].wbuf)))))",
+                        "implies(not old(dirty), dirty == old(dirty))",
+                        # from a quiet state the writer cannot enter a write pass: no data set, formatter or buffer is touched
+                        "implies(old(Wquiet(st_a(dc), st_b(dc), pcW, dirty)), forall('s:DataSet', s.formatter == old(s.formatter) and s.wbuf == old(s.wbuf) and s.nl == old(s.nl)) and "
+                        "forall('f:Formatter', f.out == old(f.out)))",
+                        "forall('s:DataSet', s.rbuf == old(s.rbuf) and s.acc == old(s.acc) and implies(old(s.formatter) != null, s.formatter != null))",
+                        # DataSet.write (verified) preserves the conservation view of every data set it is applied to
+                        "forall('s:DataSet', implies(old(conserve(s)), conserve(s)))"],
                doc="any number of steps of the writer thread, as extracted from DataCollection.write")
 
     # ------------------------------------------------------------------ threading.Event as used by the recording thread
@@ -88,48 +112,86 @@ def install(R: Registry):
 
     # ------------------------------------------------------------------ data-set accesses made by the recording thread
     QUIET = ("C17", "Wquiet(st_a(dc), st_b(dc), pcW, dirty)", "the recording thread touches a data set's write buffer / formatter / file only while the writer thread is outside its write pass and cannot enter it")
-    R.contract(D + "DataSet.stage_for_write", tags="C17", prelude="rg_interfere",
-               requires=[QUIET, ("C17", "len(self.wbuf) == 0", "the previously staged buffer has been written: staging over it would lose its messages")],
+    INTERF_MOD = ["Event.flag", "glob:pcW", "glob:dirty", "DataSet.wbuf", "DataSet.logged", "DataSet.subdivide_flag", "DataSet.sub_index", "DataSet.nl", "DataSet.formatter", "Formatter.out"]
+    OTHER_DS = "forall('s:DataSet', implies(s != self, s.wbuf == old(s.wbuf) and s.rbuf == old(s.rbuf) and s.acc == old(s.acc) and s.nl == old(s.nl) and s.formatter == old(s.formatter)))"
+    R.contract(D + "DataSet.stage_for_write", tags="C17", prelude="rg_interfere", reveal=["conserveV"],
+               requires=[QUIET, ("C17", "len(self.wbuf) == 0", "the previously staged buffer has been written: staging over it would lose its messages"), "conserve(self)"],
                modifies=["DataSet.rbuf", "DataSet.wbuf", "glob:dirty"], ghost_exit=["dirty = True"],
                ensures=[("C17", "self.wbuf == old(self.rbuf) and len(self.rbuf) == 0", "the recorded messages move to the write buffer, in order; recording continues in an empty buffer"),
-                        "dirty", "forall('s:DataSet', implies(s != self, s.wbuf == old(s.wbuf) and s.rbuf == old(s.rbuf)))"])
-    R.external("DataSet.stop", params=dict(self="DataSet"), prelude="rg_interfere",
-               requires=[QUIET, ("C17", "len(self.wbuf) == 0", "stop() stages the read buffer over the write buffer: it must have been written")],
-               modifies=["DataSet.rbuf", "DataSet.wbuf", "DataSet.logged"],
-               ensures=["len(self.rbuf) == 0", "forall('s:DataSet', implies(s != self, s.wbuf == old(s.wbuf) and s.rbuf == old(s.rbuf)))"],
-               doc="stage_for_write(); formatter.finalize(wbuf) - runs in the recording thread")
+                        ("C17", "conserve(self) and self.acc == old(self.acc) and self.nl == old(self.nl)", "nothing is lost, duplicated or reordered by staging"),
+                        "dirty", OTHER_DS, "self.formatter == old(self.formatter) and forall('f:Formatter', f.out == old(f.out))"])
+    # formatter: one record per message, in order (file formats themselves are not decided here)
+    for fn in ("write", "finalize"):
+        R.external("Formatter." + fn, params=dict(self="Formatter", wbuf="List[LMessage]"), modifies=["Formatter.out"],
+                   ensures=["grown_by(self.out, old(self.out), wbuf)", "forall('f:Formatter', implies(f != self, f.out == old(f.out)))"],
+                   doc="DataFormatter.write: fd.writelines(format_message(m) for m in wbuf) - one record per message, in list order; finalize = write + optional footer")
+    R.external("DataSet.subdivide", params=dict(self="DataSet"), modifies=["DataSet.formatter", "DataSet.fd", "DataSet.sub_index", "Formatter.out"],
+               requires=["len(self.wbuf) == 0"],
+               ensures=["forall('f:Formatter', implies(f != self.formatter, f.out == old(f.out)))", "self.formatter != null and self.formatter != old(self.formatter)",
+                        "forall('s:DataSet', implies(s != self, s.formatter == old(s.formatter)))"],
+               doc="finalize(wbuf) with an empty wbuf, close the file, open the next one with a fresh formatter")
+    R.contract(D + "DataSet.write", tags="C17", reveal=["conserveV"],
+               requires=["conserve(self)", "self.formatter != null"],
+               modifies=["DataSet.wbuf", "DataSet.nl", "DataSet.subdivide_flag", "DataSet.formatter", "DataSet.fd", "DataSet.sub_index", "Formatter.out"],
+               ghost_after={"Formatter.write": "self.nl = self.nl + len(self.wbuf)"},
+               ensures=[("C17", "let('f', old(self.formatter), grown_by(f.out, old(self.formatter.out), old(self.wbuf)))", "the formatter receives exactly the staged messages, once, in order"),
+                        ("C17", "len(self.wbuf) == 0 and self.nl == old(self.nl) + old(len(self.wbuf)) and self.acc == old(self.acc) and self.rbuf == old(self.rbuf) and conserve(self)",
+                         "the write buffer is emptied and the hand-over counter advances by its length: accepted == handed ++ write buffer ++ read buffer still holds")])
+    R.contract(D + "DataSet.stop", tags="C17", prelude="rg_interfere", reveal=["conserveV"],
+               requires=[QUIET, ("C17", "len(self.wbuf) == 0", "stop() stages the read buffer over the write buffer: it must have been written"), "conserve(self)", "self.formatter != null",
+                         "not dirty", "dc != null and dc.write_to_disk != null and dc.write_finished != null and dc.write_to_disk != dc.write_finished"],
+               modifies=["DataSet.rbuf", "DataSet.wbuf", "DataSet.nl", "Formatter.out", "glob:dirty"] + INTERF_MOD,
+               ghost_after={"Formatter.finalize": "self.nl = self.nl + len(self.wbuf)"}, ghost_exit=["dirty = False"],
+               ensures=[("C17", "len(self.rbuf) == 0 and self.nl == len(self.acc) and self.acc == old(self.acc)", "after stop every accepted message has been handed to the formatter"),
+                        ("C17", "grown_by(self.formatter.out, old(self.formatter.out), old(self.rbuf)) and self.formatter == old(self.formatter)", "... the remaining ones exactly once, in order"),
+                        OTHER_DS, "not dirty and Wstar(old(st_a(dc)), old(st_b(dc)), old(pcW), False, st_a(dc), st_b(dc), pcW, False)",
+                        "forall('e:Event', implies(e != dc.write_to_disk and e != dc.write_finished, e.flag == old(e.flag)))"])
     R.external("DataSet.close", params=dict(self="DataSet"), prelude="rg_interfere", requires=[QUIET], modifies=[], ensures=[])
 
     # ------------------------------------------------------------------ the recording thread
-    SHARED_MOD = ["Event.flag", "glob:pcW", "glob:dirty", "DataSet.wbuf", "DataSet.rbuf", "DataSet.logged", "DataSet.subdivide_flag", "DataSet.sub_index",
-                  "DataSet.next_subdivide", "DataSet.collection_stopped", "DataCollection.next_write", "DataCollection.start_time", "DataCollection.ref_time",
-                  "DataCollection._recording", "DataCollection._paused"]
-    INV_NOW = "INVS(st_a(self), st_b(self), pcW, dirty) and clean(self)"
+    SHARED_MOD = sorted(set(INTERF_MOD + ["DataSet.rbuf", "DataSet.acc", "DataSet.next_subdivide", "DataSet.collection_stopped", "DataCollection.next_write", "DataCollection.start_time",
+                                          "DataCollection.ref_time", "DataCollection._recording", "DataCollection._paused"]))
+    INV_NOW = "INVS(st_a(self), st_b(self), pcW, dirty) and clean(self) and conserve_all(self)"
+    FMT_OK = "forall('i:Int', implies(0 <= i and i < len(self.datasets), self.datasets[i].formatter != null))"
     R.contract(L + "DataCollection.trigger_write", tags="C17",
                requires=["wfc(self)", INV_NOW, "not st_a(self)", "self.use_thread"],
                modifies=SHARED_MOD,
-               ensures=[("C17", "wfc(self) and " + INV_NOW, "the hand-shake invariant is re-established")],
+               ensures=[("C17", "wfc(self) and " + INV_NOW, "the hand-shake invariant is re-established; nothing is lost, duplicated or reordered by staging"),
+                        ("C17", "forall('s:DataSet', s.acc == old(s.acc) and s.nl == old(s.nl))")],
                loops={1: dict(invariant=[
-                   "wfc(self) and not st_a(self) and pcW == 0 and st_a(self) == at_loop(st_a(self))",
+                   "wfc(self) and not st_a(self) and pcW == 0 and st_a(self) == at_loop(st_a(self)) and conserve_all(self)",
                    "0 <= idx and forall('i:Int', implies(idx <= i and i < len(self.datasets), len(self.datasets[i].wbuf) == 0))",
-                   "self.datasets == at_loop(self.datasets) and implies(idx > 0, dirty) and implies(idx == 0, not dirty)"])})
-    R.contract(L + "DataCollection.update", tags="C17", params=dict(msg="LMessage"),
+                   "self.datasets == at_loop(self.datasets) and implies(idx > 0, dirty) and implies(idx == 0, not dirty)",
+                   "forall('s:DataSet', s.acc == old(s.acc) and s.nl == old(s.nl))"])})
+    ACTIVE = "not old(self._paused) and old(self._recording)"
+    R.contract(L + "DataCollection.update", tags="C17", params=dict(msg="LMessage"), reveal=["conserveV"],
                requires=["wfc(self)", INV_NOW, "self.use_thread"],
                modifies=SHARED_MOD,
-               ensures=[("C17", "wfc(self) and " + INV_NOW)],
+               ghost_after={"list.append": "ds.acc = ds.acc + [msg]"},
+               ensures=[("C17", "wfc(self) and " + INV_NOW),
+                        ("C17", f"implies({ACTIVE}, forall('i:Int', implies(0 <= i and i < len(self.datasets), "
+                                "ite(selects(self.datasets[i], msg), appended(self.datasets[i].acc, old(self.datasets[i].acc), msg), self.datasets[i].acc == old(self.datasets[i].acc)))))",
+                         "while recording and not paused, every message whose type a data set selects is accepted by that data set exactly once, after everything accepted before; nothing else is"),
+                        ("C17", f"implies(not ({ACTIVE}), forall('s:DataSet', s.acc == old(s.acc) and s.rbuf == old(s.rbuf)))", "paused or stopped: nothing is recorded")],
                raises={"DataCollectionThreadError": []},
-               loops={1: dict(invariant=["wfc(self)", INV_NOW, "self.datasets == at_loop(self.datasets)"])})
+               loops={1: dict(invariant=["wfc(self)", INV_NOW, "self.datasets == at_loop(self.datasets) and 0 <= idx",
+                                         "forall('i:Int', implies(0 <= i and i < idx and i < len(self.datasets), "
+                                         "ite(selects(self.datasets[i], msg), appended(self.datasets[i].acc, old(self.datasets[i].acc), msg), self.datasets[i].acc == old(self.datasets[i].acc))))",
+                                         "forall('i:Int', implies(idx <= i and i < len(self.datasets), self.datasets[i].acc == old(self.datasets[i].acc)))",
+                                         "forall('i:Int', implies(0 <= i and i < len(self.datasets), self.datasets[i].msg_types == old(self.datasets[i].msg_types) and self.datasets[i].all_sub == old(self.datasets[i].all_sub)))"])})
     R.contract(L + "DataCollection.stop", tags="C17",
-               requires=["wfc(self)", INV_NOW],
+               requires=["wfc(self)", INV_NOW, FMT_OK],
                modifies=SHARED_MOD,
                ensures=[("C17", "INVW(st_a(self), st_b(self), pcW, dirty) and not st_a(self) and not st_b(self)", "after stop() both flags are clear and the writer is outside its pass"),
-                        ("C17", "forall('i:Int', implies(0 <= i and i < len(self.datasets), len(self.datasets[i].rbuf) == 0))", "every recorded message has been handed to its formatter")],
-               loops={1: dict(invariant=["wfc(self) and INVS(st_a(self), st_b(self), pcW, dirty) and clean(self) and st_a(self)"]),
+                        ("C17", "forall('i:Int', implies(0 <= i and i < len(self.datasets), self.datasets[i].nl == len(self.datasets[i].acc) and self.datasets[i].acc == old(self.datasets[i].acc)))",
+                         "after stop() every message accepted by a data set has been handed to its formatter (exactly once and in order: nl counts a prefix of acc)")],
+               loops={1: dict(invariant=["wfc(self) and INVS(st_a(self), st_b(self), pcW, dirty) and clean(self) and st_a(self) and conserve_all(self)", FMT_OK,
+                                         "forall('s:DataSet', s.acc == old(s.acc))"]),
                       2: dict(invariant=["wfc(self) and not st_a(self) and not st_b(self) and INVW(st_a(self), st_b(self), pcW, dirty) and not dirty",
-                                         "0 <= idx and self.datasets == at_loop(self.datasets)",
-                                         "forall('i:Int', implies(idx <= i and i < len(self.datasets), len(self.datasets[i].wbuf) == 0))",
-                                         "forall('i:Int', implies(0 <= i and i < idx and i < len(self.datasets), len(self.datasets[i].rbuf) == 0))"])})
+                                         "0 <= idx and self.datasets == at_loop(self.datasets)", FMT_OK, "forall('s:DataSet', s.acc == old(s.acc))",
+                                         "forall('i:Int', implies(idx <= i and i < len(self.datasets), len(self.datasets[i].wbuf) == 0 and conserve(self.datasets[i])))",
+                                         "forall('i:Int', implies(0 <= i and i < idx and i < len(self.datasets), self.datasets[i].nl == len(self.datasets[i].acc)))"])})
 
 
 LOGGER_SIDECARS = ["contracts.logger_contracts"]
-LOGGER_C17 = [L + "DataCollection.trigger_write", L + "DataCollection.update", L + "DataCollection.stop", D + "DataSet.stage_for_write"]
+LOGGER_C17 = [L + "DataCollection.trigger_write", L + "DataCollection.update", L + "DataCollection.stop", D + "DataSet.stage_for_write", D + "DataSet.write", D + "DataSet.stop"]
